@@ -1,3 +1,5 @@
+//go:build c04
+
 package main
 
 import (
@@ -42,13 +44,6 @@ func (s *sink) Close() error {
 	s.closes++
 	s.mu.Unlock()
 	return nil
-}
-
-func hx(b []byte) string {
-	if len(b) == 0 {
-		return "-"
-	}
-	return hex.EncodeToString(b)
 }
 
 // c04Record is record j of batch k: content is a pure function of (k, j).
